@@ -805,6 +805,13 @@ class Interp:
     def ev_GeneratorExp(self, e, env, fr, ctx):
         return self.ev_ListComp(e, env, fr, ctx)
 
+    def ev_DictComp(self, e, env, fr, ctx):
+        d = PyDict()
+        pairs = self.comprehension(ast.Tuple(elts=[e.key, e.value], ctx=ast.Load()), e.generators, env, fr, ctx)
+        for k, v in pairs:
+            d.d[self.concrete_key(k, ctx)] = v
+        return d
+
     def ev_SetComp(self, e, env, fr, ctx):
         return PySet([self.concrete_key(x, ctx) for x in self.comprehension(e.elt, e.generators, env, fr, ctx)])
 
@@ -1565,6 +1572,30 @@ class Interp:
         return o
 
     def call_method(self, o, name, args, kwargs, ctx):
+        if is_symint(o) and name == "to_bytes":
+            from .sym import int_bytes
+            n = self.need_concrete_int(args[0] if args else kwargs.get("length", 1), ctx)
+            order = args[1] if len(args) > 1 else kwargs.get("byteorder", "big")
+            if kwargs.get("signed"):
+                raise Unsupported("int.to_bytes(signed=True)")
+            if not ctx.branch(simp(z3.And(o >= 0, o < 256 ** n))):
+                raise PyExc(ExcVal("OverflowError", ("int too big to convert",)))
+            bs = int_bytes(o, n)
+            return Seq('bytes', [Elems(bs if order == "little" else list(reversed(bs)))])
+        if isinstance(o, Builtin) and o.pytype is int and name == "from_bytes":
+            from .sym import le_value
+            from . import seqops
+            data = args[0]
+            order = args[1] if len(args) > 1 else kwargs.get("byteorder", "big")
+            if isinstance(data, bytes):
+                return int.from_bytes(data, order)
+            sq = seqops.concretize(Seq.of(data), ctx)
+            if not sq.fixed():
+                raise Unsupported("int.from_bytes of symbolic-length bytes")
+            ts = sq.terms()
+            return le_value(ts if order == "little" else list(reversed(ts)))
+        if isinstance(o, Builtin) and o.pytype is bytes and name == "fromhex":
+            return self.call(self.ext_models["binascii.unhexlify"], [args[0]], {}, ctx)
         if getattr(o, "preexisting", False) and isinstance(o, (PyList, PyDict, PySet)) and name in (
                 "add", "append", "pop", "update", "clear", "setdefault", "extend", "insert", "remove", "discard", "sort", "reverse"):
             ctx.ghost.heap_writes.append((o, f"{name}()"))
